@@ -786,7 +786,7 @@ func init() {
 				}
 			}
 		}
-		as := amt.String()
+		as := g.styleInt(amt)
 		switch mode {
 		case ModeNearMiss:
 			as = new(big.Int).Add(bal, big.NewInt(1)).String()
@@ -1027,6 +1027,13 @@ func init() {
 	})
 	regKind("DefineResolver", false, func(g *Gen, a *Actor, v *Snapshot, mode int) sdk.Msg {
 		url := Pick(g.R, []string{"https://foo.bar", "https://foo.bar/a", "http://r.example", "https://res.regen.network", "https://x.y/" + fmt.Sprint(g.R.Intn(5))})
+		if g.R.Chance(0.35) {
+			// everything else a request URI may be: no host, opaque, user info, ports, IPv6, escapes, other schemes, long
+			url = Pick(g.R, []string{"/ipfs/QmYwAPJzv5CZsnA625s3Xf2nemtYgPpHdWEz79ojWnPbdG", "urn:uuid:6e8bc430-9c3a-11d9-9669-0800200c9a66", "file:///var/data/x",
+				"ipfs://bafybeigdyrzt5sfp7udm7hu76uh7y26nf3efuylqabf3oclgtqy55fbzdi", "https://user:pw@host.example:8443/p?q=1&r=%7E#frag", "HTTP://UPPER.EXAMPLE/PATH",
+				"https://[2001:db8::1]:9090/", "https://xn--bcher-kva.example/ä", "mailto:registry@example.org", "https://127.0.0.1", "/", "a:b", "https://foo.bar/" + strings.Repeat("seg/", g.R.Range(20, 300)),
+				"https://foo.bar/?u=" + fmt.Sprint(g.next())})
+		}
 		if mode != ModeValid && g.R.Chance(0.4) {
 			url = Pick(g.R, []string{"", "foo", "://", "ftp//x"})
 		}
